@@ -910,6 +910,8 @@ func run(seed int64, n int, dir string, _ []string) {
 				groupedListAgg(g, o, pr, rows, cpu)
 			}
 		}
+		// the session flags: the same functions under --strict-equal / without it over pools of loosely equal twins
+		flagCases(g, o, pr, cpu, 5)
 		pr.DisposeTable("t")
 	}
 }
@@ -1158,6 +1160,19 @@ func runCase(g *hc.Gen, o *hc.Out, pr *hc.Proc, rows [][]value.Primary, c caseSp
 				mfn = "median"
 			case "agg:COUNT":
 				mfn = "countd"
+			case "agg:VAR":
+				mfn = "var"
+			case "agg:VARP":
+				mfn = "varp"
+			case "agg:STDEV":
+				mfn = "stdev"
+			case "agg:STDEVP":
+				mfn = "stdevp"
+			}
+			if (mfn == "var" || mfn == "varp" || mfn == "stdev" || mfn == "stdevp") && src.derived && !c.uniqueOrder() {
+				// the sum of the squared deviations is a float sum: its last bit depends on the order of the cells, and
+				// the order of a derived view that an inner analytic function has re-sorted is not known here
+				mfn = ""
 			}
 		}
 	}
